@@ -43,6 +43,11 @@ def initial_cases(tier, seed):
         cases.append({"kind": "ni", "fam": fam, "hist": [], "seed": seed, "depth": DEPTH if tier == "quick" else 4})
     for fam, plan in itertools.product(["VJ", "VIJ", "VI", "VK"], ["gaussian", "spline"]):
         cases.append({"kind": "gen", "fam": fam, "plan": plan, "hist": [], "seed": seed, "depth": 4})
+    # the same call alphabet in the generator's nuclear-gradient mode (atom-ordered input, extra outputs, extra cache entries)
+    for fam, plan in itertools.product(["VJ", "VIJ", "VK"], ["gaussian", "spline"]):
+        if tier == "quick" and plan == "spline" and fam != "VIJ":
+            continue
+        cases.append({"kind": "gen", "fam": fam, "plan": plan, "gmode": "grad", "hist": [], "seed": seed, "depth": 4})
     for k in ("kernel-chunk", "exponent-alias", "maps-alias", "plan-alias", "sdmx-alias"):
         cases.append({"kind": "misc", "what": k, "seed": seed})
     return cases
@@ -258,21 +263,36 @@ def _gen_world(case):
     w = grids.weights
     v1 = np.cos(np.arange(nf * w.size)).reshape(nf, w.size) * w * ra[0]
     v2 = np.sin(1.0 + np.arange(nf * w.size)).reshape(nf, w.size) * w * rb[0]
+    if case.get("gmode") == "grad":
+        # gradient mode takes the density in the atom-ordered layout of the grids indexer
+        gi = g2.grids_indexer
+        n = gi.idx_map.size
+
+        def ato(r):
+            out = np.zeros((r.shape[0], gi.ngrids))
+            out[:, gi.idx_map] = r[:, :n]
+            return out
+
+        ra, rb = ato(ra), ato(rb)
     return mol, grids, g2, {"a": ra, "b": rb}, {"1": v1, "2": v2}
 
 
-def _gen_apply(g, rhos, vs, op, last):
+def _gen_apply(g, rhos, vs, op, last, gmode=None):
+    kw = dict(map_grids=False, grad_mode=True) if gmode == "grad" else {}
     if op[0] == "F":
         s = int(op[2])
         rho = rhos[op[1]].copy()
         keep = rho.copy()
-        out = g.get_features(rho, spin=s)
+        out = g.get_features(rho, spin=s, **kw)
         last[s] = op[1]
         return out, (rho, keep, "rho passed to get_features")
     s = int(op[2])
     v = vs[op[1]].copy()
     keep = v.copy()
-    out = g.get_potential(v, spin=s)
+    out = g.get_potential(v, spin=s, **kw)
+    if gmode == "grad":
+        # (potential on the atom-ordered grid, grid-response density, per-atom force term)
+        out = np.concatenate([np.ravel(np.asarray(o, dtype=float)) for o in out])
     return out, (v, keep, "vfeat passed to get_potential")
 
 
@@ -282,7 +302,8 @@ def run_gen(case):
     mol, grids, g, rhos, vs = _gen_world(case)
     last = {0: None, 1: None}
     out = None
-    ck = "fam=%s;plan=%s" % (case["fam"], case["plan"])
+    gmode = case.get("gmode")
+    ck = "fam=%s;plan=%s%s" % (case["fam"], case["plan"], ";mode=grad" if gmode == "grad" else "")
     evals = 0
     valid = True
     for k, op in enumerate(hist):
@@ -290,12 +311,12 @@ def run_gen(case):
         if op[0] == "P" and last[s] is None:
             valid = False  # potential before any feature pass of that spin: a rejection is expected
             try:
-                g.get_potential(vs[op[1]].copy(), spin=s)
+                g.get_potential(vs[op[1]].copy(), spin=s, **(dict(map_grids=False, grad_mode=True) if gmode == "grad" else {}))
                 fails.append({"key": "potential-before-features-accepted;" + ck, "msg": "get_potential without a feature pass returned a result"})
             except Exception:
                 pass
             break
-        out, (arr, keep, what) = _gen_apply(g, rhos, vs, op, last)
+        out, (arr, keep, what) = _gen_apply(g, rhos, vs, op, last, gmode)
         evals += 1
         if not np.array_equal(arr, keep):
             fails.append({"key": "input-modified;%s;%s" % ("rho" if op[0] == "F" else "vfeat", ck),
@@ -307,12 +328,15 @@ def run_gen(case):
         mol2, grids2, gf, rhos2, vs2 = _gen_world(case)
         l2 = {0: None, 1: None}
         if op[0] == "P":
-            _gen_apply(gf, rhos2, vs2, "F%s%d" % (last[s], s), l2)
-        ref, _ = _gen_apply(gf, rhos2, vs2, op, l2)
+            _gen_apply(gf, rhos2, vs2, "F%s%d" % (last[s], s), l2, gmode)
+        ref, _ = _gen_apply(gf, rhos2, vs2, op, l2, gmode)
         evals += 2
-        big = rhos["a"][0] > 1e-7
-        a = np.asarray(out)[..., big]
-        b = np.asarray(ref)[..., big]
+        if gmode == "grad":  # atom-ordered arrays: compared in full
+            a, b = np.asarray(out), np.asarray(ref)
+        else:
+            big = rhos["a"][0] > 1e-7
+            a = np.asarray(out)[..., big]
+            b = np.asarray(ref)[..., big]
         r = float(np.abs(a - b).max() / (1 + np.abs(b).max()))
         if not r <= TOL:
             fails.append({"key": "history-dependent;gen;%s;op=%s;prev=%s" % (ck, op[0] + op[2], (hist[-2][0] + hist[-2][2]) if len(hist) > 1 else "-"),
